@@ -742,26 +742,35 @@ def lower_argaccess(R):
 # ---------------------------------------------------------------------------
 # rewrite pass and grammar actions (C01.rewrite / C01.parse / C16.parse)
 
-@family("FRONT.rewrite", props=["C01"], functions=["nsl.passes.RewriteAssignEqualOperations::RewriteAssignEqualVisitor.v_AssignmentExpression"])
+@family("FRONT.rewrite", props=["C01", "C08"], functions=["nsl.passes.RewriteAssignEqualOperations::RewriteAssignEqualVisitor.v_AssignmentExpression"])
 def front_rewrite(R):
     """`x op= e` becomes `x = x op e` with the operator of that spelling; `x = e` is returned unchanged."""
     a = ag.A()
     import nsl.op as op
     cls = resolve("nsl.passes.RewriteAssignEqualOperations::RewriteAssignEqualVisitor")
     for aop, bop in (("ASSIGN_ADD_EQUAL", "ADD"), ("ASSIGN_SUB_EQUAL", "SUB"), ("ASSIGN_MUL_EQUAL", "MUL"), ("ASSIGN_DIV_EQUAL", "DIV")):
-        l, r = ag.E("l"), ag.E("r")
-        n = a.AssignmentExpression(l, r, operation=op.Operation[aop])
-        res = cls().v_Generic(n, None)
-        ok = isinstance(res, a.AssignmentExpression) and res.GetOperation() == op.Operation.ASSIGN and res.GetLeft() is l and isinstance(res.GetRight(), a.BinaryExpression) \
-            and type(res.GetRight()) is a.BinaryExpression and res.GetRight().GetOperation() == op.Operation[bop] and res.GetRight().GetLeft() is l and res.GetRight().GetRight() is r
-        R.check(f"FRONT.rewrite[{aop}]", "nsl.passes.RewriteAssignEqualOperations::RewriteAssignEqualVisitor.v_AssignmentExpression", ok, detail=f"rewritten to {res}")
+        # both operands range over an opaque node and a real node of every expression class (every binary operator): the rewrite must keep
+        # the right-hand side as ONE operand -- `x *= a / b` is `x = x * (a / b)`, never `(x * a) / b`
+        for (ll, ml), (rl, mr) in itertools.product(ag.variants("E"), repeat=2):
+            if ll != "opaque" and rl != "opaque":
+                continue
+            l, r = ml(), mr()
+            n = a.AssignmentExpression(l, r, operation=op.Operation[aop])
+            v = cls()
+            step = ag.visitor_step(v, n, None)
+            res = step.result
+            ok = step.raised is None and isinstance(res, a.AssignmentExpression) and res.GetOperation() == op.Operation.ASSIGN and res.GetLeft() is l and isinstance(res.GetRight(), a.BinaryExpression) \
+                and type(res.GetRight()) is a.BinaryExpression and res.GetRight().GetOperation() == op.Operation[bop] and res.GetRight().GetLeft() is l and res.GetRight().GetRight() is r
+            lab = aop if (ll, rl) == ("opaque", "opaque") else f"{aop},left={ll},right={rl}"
+            R.check(f"FRONT.rewrite[{lab}]", "nsl.passes.RewriteAssignEqualOperations::RewriteAssignEqualVisitor.v_AssignmentExpression", ok,
+                    detail=f"`l {aop} r` must become `l = (l {bop} r)` with r kept as one operand; rewritten to {res} (raised {step.raised!r})")
     l, r = ag.E("l"), ag.E("r")
     n = a.AssignmentExpression(l, r)
     res = cls().v_Generic(n, None)
     R.check("FRONT.rewrite[ASSIGN]", "nsl.passes.RewriteAssignEqualOperations::RewriteAssignEqualVisitor.v_AssignmentExpression", res is n or res is None, detail="plain assignment must stay")
 
 
-@family("FRONT.parse-actions", props=["C01", "C08", "C16", "C13"], functions=["nsl.parser::NslParser.p_*", "nsl.op::StrToOp"],
+@family("FRONT.parse-actions", props=["C01", "C08", "C16", "C13", "C11", "C12"], functions=["nsl.parser::NslParser.p_*", "nsl.op::StrToOp"],
         assumptions=["the real grammar actions run on a parser created without __init__ and a stand-in production object; the role of each right-hand-side symbol is read from the action's own docstring production"])
 def front_parse_actions(R):
     """Each grammar action builds the node its production names, with the sub-trees in the roles their positions dictate: condition/body/else/
@@ -778,33 +787,49 @@ def front_parse_actions(R):
         resolve(P + name)(new_parser(), p)
         return p[0]
 
-    c, t, f, b, i, n, e = ag.E("c"), ag.S("t"), ag.S("f"), ag.S("b"), ag.N("i"), ag.E("n"), ag.E("e")
-    r = act("p_selection_statement_1", ["if", "(", c, ")", t])
-    R.check("FRONT.parse[selection_statement_1]", P + "p_selection_statement_1", isinstance(r, a.IfStatement) and r.GetCondition() is c and r.GetTruePath() is t and not r.HasElsePath(), detail=str(r))
-    r = act("p_selection_statement_2", ["if", "(", c, ")", t, "else", f])
-    R.check("FRONT.parse[selection_statement_2]", P + "p_selection_statement_2", isinstance(r, a.IfStatement) and r.GetCondition() is c and r.GetTruePath() is t and r.GetElsePath() is f, detail=str(r))
-    r = act("p_iteration_statement_1", ["for", "(", i, ";", c, ";", n, ")", b])
-    R.check("FRONT.parse[iteration_statement_1]", P + "p_iteration_statement_1", isinstance(r, a.ForStatement) and r.GetInitialization() is i and r.GetCondition() is c and r.GetNext() is n and r.GetBody() is b, detail="for: init/cond/next/body roles")
-    r = act("p_iteration_statement_2", ["while", "(", c, ")", b])
-    R.check("FRONT.parse[iteration_statement_2]", P + "p_iteration_statement_2", isinstance(r, a.WhileStatement) and r.GetCondition() is c and r.GetBody() is b, detail="while: cond/body roles")
-    r = act("p_iteration_statement_3", ["do", b, "while", "(", c, ")"])
-    R.check("FRONT.parse[iteration_statement_3]", P + "p_iteration_statement_3", isinstance(r, a.DoStatement) and r.GetCondition() is c and r.GetBody() is b, detail="do: body/cond roles")
-    R.check("FRONT.parse[iteration_statement_4]", P + "p_iteration_statement_4", type(act("p_iteration_statement_4", ["continue", ";"])) is a.ContinueStatement, detail="continue")
-    R.check("FRONT.parse[iteration_statement_5]", P + "p_iteration_statement_5", type(act("p_iteration_statement_5", ["break", ";"])) is a.BreakStatement, detail="break")
-    r = act("p_return_statement_1", ["return", e, ";"])
-    R.check("FRONT.parse[return_statement_1]", P + "p_return_statement_1", isinstance(r, a.ReturnStatement) and r.GetExpression() is e, detail="return e")
-    r = act("p_return_statement_2", ["return", ";"])
-    R.check("FRONT.parse[return_statement_2]", P + "p_return_statement_2", isinstance(r, a.ReturnStatement) and r.GetExpression() is None, detail="return")
-    stmts = [ag.S("s0"), ag.S("s1")]
-    r = act("p_compound_statement", ["{", stmts, "}"])
-    R.check("FRONT.parse[compound_statement]", P + "p_compound_statement", isinstance(r, a.CompoundStatement) and list(r.GetStatements()) == stmts, detail="block")
-    r = act("p_statement_list_1", [[stmts[0]], stmts[1]])
-    R.check("FRONT.parse[statement_list]", P + "p_statement_list_1", r == stmts, detail="statement order")
-    r = act("p_expression_statement", [e, ";"])
-    R.check("FRONT.parse[expression_statement]", P + "p_expression_statement", isinstance(r, a.ExpressionStatement) and r.GetExpression() is e, detail="expr;")
-    d = ag.N("d")
-    r = act("p_declaration_statement", [d, ";"])
-    R.check("FRONT.parse[declaration_statement]", P + "p_declaration_statement", isinstance(r, a.DeclarationStatement) and r.GetDeclarations() == [d], detail="decl;")
+    # Every action is run with an opaque node and with one REAL node of every statement / expression class in each child position: an action
+    # must not look inside the sub-trees it is handed (e.g. drop a statement because the previous one is a return).
+    def stmt_actions(mkS, mkE, vl):
+        c, t, f, b, i, n, e = mkE(), mkS(), mkS(), mkS(), ag.N("i"), mkE(), mkE()
+        r = act("p_selection_statement_1", ["if", "(", c, ")", t])
+        R.check(f"FRONT.parse[{vl}selection_statement_1]", P + "p_selection_statement_1", isinstance(r, a.IfStatement) and r.GetCondition() is c and r.GetTruePath() is t and not r.HasElsePath(), detail=str(r))
+        r = act("p_selection_statement_2", ["if", "(", c, ")", t, "else", f])
+        R.check(f"FRONT.parse[{vl}selection_statement_2]", P + "p_selection_statement_2", isinstance(r, a.IfStatement) and r.GetCondition() is c and r.GetTruePath() is t and r.GetElsePath() is f, detail=str(r))
+        r = act("p_iteration_statement_1", ["for", "(", i, ";", c, ";", n, ")", b])
+        R.check(f"FRONT.parse[{vl}iteration_statement_1]", P + "p_iteration_statement_1", isinstance(r, a.ForStatement) and r.GetInitialization() is i and r.GetCondition() is c and r.GetNext() is n and r.GetBody() is b, detail="for: init/cond/next/body roles")
+        r = act("p_iteration_statement_2", ["while", "(", c, ")", b])
+        R.check(f"FRONT.parse[{vl}iteration_statement_2]", P + "p_iteration_statement_2", isinstance(r, a.WhileStatement) and r.GetCondition() is c and r.GetBody() is b, detail="while: cond/body roles")
+        r = act("p_iteration_statement_3", ["do", b, "while", "(", c, ")"])
+        R.check(f"FRONT.parse[{vl}iteration_statement_3]", P + "p_iteration_statement_3", isinstance(r, a.DoStatement) and r.GetCondition() is c and r.GetBody() is b, detail="do: body/cond roles")
+        R.check(f"FRONT.parse[{vl}iteration_statement_4]", P + "p_iteration_statement_4", type(act("p_iteration_statement_4", ["continue", ";"])) is a.ContinueStatement, detail="continue")
+        R.check(f"FRONT.parse[{vl}iteration_statement_5]", P + "p_iteration_statement_5", type(act("p_iteration_statement_5", ["break", ";"])) is a.BreakStatement, detail="break")
+        r = act("p_return_statement_1", ["return", e, ";"])
+        R.check(f"FRONT.parse[{vl}return_statement_1]", P + "p_return_statement_1", isinstance(r, a.ReturnStatement) and r.GetExpression() is e, detail="return e")
+        r = act("p_return_statement_2", ["return", ";"])
+        R.check(f"FRONT.parse[{vl}return_statement_2]", P + "p_return_statement_2", isinstance(r, a.ReturnStatement) and r.GetExpression() is None, detail="return")
+        stmts = [mkS(), mkS()]
+        r = act("p_compound_statement", ["{", stmts, "}"])
+        R.check(f"FRONT.parse[{vl}compound_statement]", P + "p_compound_statement", isinstance(r, a.CompoundStatement) and list(r.GetStatements()) == stmts, detail="block")
+        r = act("p_statement_list_1", [[stmts[0]], stmts[1]])
+        R.check(f"FRONT.parse[{vl}statement_list]", P + "p_statement_list_1", r == stmts, detail="statement order")
+        r = act("p_expression_statement", [e, ";"])
+        R.check(f"FRONT.parse[{vl}expression_statement]", P + "p_expression_statement", isinstance(r, a.ExpressionStatement) and r.GetExpression() is e, detail="expr;")
+        d = ag.N("d")
+        r = act("p_declaration_statement", [d, ";"])
+        R.check(f"FRONT.parse[{vl}declaration_statement]", P + "p_declaration_statement", isinstance(r, a.DeclarationStatement) and r.GetDeclarations() == [d], detail="decl;")
+
+    for vl, mk in ag.variants("S"):
+        stmt_actions(mk, lambda: ag.E("e"), "" if vl == "opaque" else f"S={vl}:")
+    for vl, mk in ag.variants("E"):
+        if vl != "opaque":
+            stmt_actions(lambda: ag.S("s"), mk, f"E={vl}:")
+    # statement lists: every (previous statement class, appended statement class) pair is kept, in order
+    for (l0, m0), (l1, m1) in itertools.product(ag.variants("S"), repeat=2):
+        s0, s1, s2 = ag.S("first"), m0(), m1()
+        r = act("p_statement_list_1", [[s0, s1], s2])
+        R.check(f"FRONT.parse[statement_list:{l0},{l1}]", P + "p_statement_list_1", isinstance(r, list) and len(r) == 3 and r[0] is s0 and r[1] is s1 and r[2] is s2,
+                detail=f"`statement_list statement` must append the statement whatever the classes of its neighbours: got {r}")
+    e = ag.E("e")
     for tok, o in (("++", op.Operation.ADD), ("--", op.Operation.SUB)):
         r = act("p_unary_expression_3", [tok, "x"])
         R.check(f"FRONT.parse[unary_expression_3,{tok}]", P + "p_unary_expression_3", isinstance(r, a.AffixExpression) and r.GetOperation() == o and r.IsPrefix() and r.GetExpression().GetName() == "x", detail="prefix")
